@@ -225,6 +225,8 @@ def _worker_init(modname):
     sys.path.insert(0, os.path.join(VERIF, 'harness'))
     _MOD = importlib.import_module(modname)
     sys.setrecursionlimit(1000)
+    import logging
+    logging.disable(logging.CRITICAL)
 
 def _worker_eval(chunk):
     out = []
